@@ -114,7 +114,19 @@ def check_cid(ctx, fields, dialect_names=None):
             continue
         ctx.count("statements")
         try:
-            text = sql.SqlFactory(cid, "some_table", dialect).create_table_statement()
+            factory = sql.SqlFactory(cid, "some_table", dialect)
+            text = factory.create_table_statement()
+            # the same factory asked again (statement, fields, statement) must give the same answer
+            again = factory.create_table_statement()
+            field_rows = list(factory.sql_fields())
+            third = factory.create_table_statement()
+            ctx.count("factories.reused")
+            if again != text or third != text or len(field_rows) != len(fields):
+                case = {"dialect": dialect_name, "fields": fields}
+                ctx.case(case, True)
+                ctx.violation("C19:statement-changes-on-reuse", case, "asking the same SqlFactory again gives another statement / another number of fields",
+                              expected=text, observed={"second": again, "fields": len(field_rows), "third": third})
+                continue
         except Exception as error:
             mod, fn = core.innermost_cutplace_frame(error)
             case = {"dialect": dialect_name, "fields": fields}
